@@ -16,9 +16,15 @@
       scanner model and compared with the implementation.
    4. EVERYTHING AFTER THE SCANNER depends on the token kinds and lexemes only, for all texts
       ([result_depends_only_on_the_token_sequence]): two texts with the same token sequence give the same
-      declarations, hence the same grammar, definitions, precedences and verdict, wherever the tokens sit. *)
+      declarations, hence the same grammar, definitions, precedences and verdict, wherever the tokens sit.
+   5. THE SCANNER, for all texts: a blank, tab, line feed or carriage return in front of the text, or directly after any
+      token, changes neither the sequence of token kinds and lexemes nor the kind of ending
+      ([layout_character_in_front], [layout_character_after_a_token]; Reg/Layout.v, generic in the automaton, with
+      the side conditions decided by computation on the transition table translated from lexer.go); with 4, the
+      derived specification is the same ([leading_layout_does_not_change_the_result]). *)
 From Coq Require Import List Bool Arith NArith.
-From Verif Require Import Reg.TwoBuf Reg.MaxMunch Emerge.Pipeline.
+From Verif Require Import Reg.Dfa Reg.TwoBuf Reg.MaxMunch Reg.Layout Emerge.Pipeline.
+From VerifGen Require Import LexerGo.
 Import ListNotations.
 
 Theorem sequential_reading_is_exact :
@@ -48,3 +54,63 @@ Proof.
   exists 2, [97; 98; 99; 100; 101; 102; 103; 104]%N, [ONext; ONext; ORetract; ONext; ONext].
   split; [repeat constructor; discriminate|]. split; [vm_compute; discriminate | vm_compute; reflexivity].
 Qed.
+
+(* ---- scanner-level layout invariance, for the scanner translated from lexer.go ---- *)
+Definition layout_chars : list (N * N) := [(32, 1); (9, 1); (10, 2); (13, 2)]%N.   (* character, state of a run of its class *)
+
+Lemma layout_conditions b w : In (b, w) layout_chars ->
+  Dfa.step go_dfa 0 b = Some w /\ go_cls w = CSkip /\ closed_ok go_dfa w = true /\ loop_ok go_dfa w = true
+  /\ tokens_dead_ok go_dfa go_cls b = true.
+Proof.
+  intros H. repeat (destruct H as [H|H]; [injection H as <- <-; vm_compute; repeat split; reflexivity|]). destruct H.
+Qed.
+
+Lemma go_start_not_accepting : go_cls 0%N = CErr.
+Proof. vm_compute. reflexivity. Qed.
+
+Theorem layout_character_in_front b w s : In (b, w) layout_chars ->
+  let r1 := tokens (Dfa.step go_dfa) go_cls s in
+  let r2 := tokens (Dfa.step go_dfa) go_cls (b :: s) in
+  kinds_and_lexemes (fst r2) = kinds_and_lexemes (fst r1) /\ ekind (snd r2) = ekind (snd r1).
+Proof.
+  intros Hin r1 r2. destruct (layout_conditions b w Hin) as [H0 [Hs [Hc [Hl _]]]].
+  pose proof (tokens_spec (Dfa.step go_dfa) go_cls go_start_not_accepting s) as L1.
+  destruct (insert_in_front (Dfa.step go_dfa) go_cls b w H0 Hs (closed_ok_sound go_dfa w Hc) (loop_ok_sound go_dfa w Hl)
+              _ _ _ _ L1 pos0) as [ts' [e' [L2 [P E]]]].
+  pose proof (tokens_spec (Dfa.step go_dfa) go_cls go_start_not_accepting (b :: s)) as L3.
+  destruct (lexes_functional _ _ _ _ _ _ L3 _ _ L2) as [E1 E2]. subst r1 r2. cbv zeta. rewrite E1, E2. split; [exact P | exact E].
+Qed.
+Print Assumptions layout_character_in_front.
+
+Theorem layout_character_after_a_token b w s s' : In (b, w) layout_chars ->
+  after_token (Dfa.step go_dfa) go_cls b s s' ->
+  let r1 := tokens (Dfa.step go_dfa) go_cls s in
+  let r2 := tokens (Dfa.step go_dfa) go_cls s' in
+  kinds_and_lexemes (fst r2) = kinds_and_lexemes (fst r1) /\ ekind (snd r2) = ekind (snd r1).
+Proof.
+  intros Hin Hins r1 r2. destruct (layout_conditions b w Hin) as [H0 [Hs [Hc [Hl _]]]].
+  pose proof (tokens_spec (Dfa.step go_dfa) go_cls go_start_not_accepting s) as L1.
+  destruct (insertion_after_a_token (Dfa.step go_dfa) go_cls b w H0 Hs (closed_ok_sound go_dfa w Hc) (loop_ok_sound go_dfa w Hl)
+              s s' Hins _ _ _ L1) as [ts' [e' [L2 [P E]]]].
+  pose proof (tokens_spec (Dfa.step go_dfa) go_cls go_start_not_accepting s') as L3.
+  destruct (lexes_functional _ _ _ _ _ _ L3 _ _ L2) as [E1 E2]. subst r1 r2. cbv zeta. rewrite E1, E2. split; [exact P | exact E].
+Qed.
+Print Assumptions layout_character_after_a_token.
+
+(* every token of the scanner is closed under these characters: the premise `adv q b = None` of after_token holds at every token *)
+Theorem tokens_are_not_extended_by_layout b w q k m : In (b, w) layout_chars -> go_cls q = CTok k m -> Dfa.step go_dfa q b = None.
+Proof.
+  intros Hin Hq. destruct (layout_conditions b w Hin) as [_ [_ [_ [_ Hd]]]].
+  exact (tokens_dead_ok_sound go_dfa go_cls b Hd q k m Hq).
+Qed.
+Print Assumptions tokens_are_not_extended_by_layout.
+
+Theorem leading_layout_does_not_change_the_result b w t : In (b, w) layout_chars ->
+  snd (scan t) = EndEOF -> front (b :: t) = front t.
+Proof.
+  intros Hin He. destruct (layout_character_in_front b w (t ++ [10%N]) Hin) as [P E].
+  apply front_depends_only_on_tokens; [exact P|].
+  unfold scan in *. change ((b :: t) ++ [10%N]) with (b :: t ++ [10%N]). rewrite He in E.
+  destruct (snd (tokens (Dfa.step go_dfa) go_cls (b :: t ++ [10%N]))); try discriminate E. rewrite He. reflexivity.
+Qed.
+Print Assumptions leading_layout_does_not_change_the_result.
